@@ -23,7 +23,7 @@ c03_gen.GENERATORS.append(c03_multi.gen_netany)
 class C03(vlib.Driver):
     pid = "C03"
     preamble = ("From Coq Require Import List ZArith String. Import ListNotations.\n"
-                "From AgileV Require Import C03.Model C03.ModelCnn C03.ModelNet C03.ModelMulti C03.Check C03.CheckMulti.\n"
+                "From AgileV Require Import C03.Model C03.ModelCnn C03.ModelNet C03.ModelMulti C03.ModelMulti2 C03.ModelCnn3d C03.Check C03.CheckMulti C03.CheckMulti2 C03.CheckCnn3d.\n"
                 "Open Scope Z_scope. Open Scope string_scope.\nDefinition length {A} := @List.length A.")
     rule = ("one case = one building block / network, a start architecture, a chain of advertised mutation calls "
             "(explicit arguments or scripted numpy draws). Exhaustive BFS over the architectures reachable for small "
